@@ -140,3 +140,70 @@ Proof.
 Qed.
 Print Assumptions compound_fields_kept.
 Print Assumptions compound_paths_kept.
+
+(* --- addExecveRecord: the arguments are all in Process.Args in order and argc is in Data, or a warning is counted --- *)
+Lemma take_args_spec : forall fuel i count d acc l,
+  take_args fuel i count d acc = Some l -> N.to_nat (count - i) < fuel ->
+  exists vs, l = rev acc ++ vs /\ List.length vs = N.to_nat (count - i) /\
+             forall j, j < List.length vs -> fget (L "a" ++ Dec.dec (i + N.of_nat j)) d = Some (nth j vs []).
+Proof.
+  induction fuel as [|f IH]; intros i count d acc l H Hf; [lia|]. cbn [take_args] in H.
+  destruct (N.leb_spec count i) as [Hle|Hlt].
+  - injection H as <-. exists []. rewrite app_nil_r. split; auto. split. cbn. lia. cbn. intros j Hj. lia.
+  - destruct (fget (L "a" ++ Dec.dec i) d) as [v|] eqn:E; [|discriminate].
+    destruct (IH _ _ _ _ _ H) as (vs & Hl & Hlen & Hget). lia.
+    exists (v :: vs). split. rewrite Hl. cbn [rev]. rewrite <- app_assoc. reflexivity.
+    split. cbn [List.length]. lia.
+    intros [|j] Hj.
+    + cbn [nth]. replace (i + N.of_nat 0)%N with i by lia. exact E.
+    + cbn [nth]. cbn [List.length] in Hj. replace (i + N.of_nat (S j))%N with (i + 1 + N.of_nat j)%N by lia. apply Hget. lia.
+Qed.
+Theorem add_execve_kept d e :
+  let e' := add_execve d e in
+  m_warn e <= m_warn e' /\
+  (m_warn e' = m_warn e ->
+   exists argc c args, fget (L "argc") d = Some argc /\ fget (L "argc") (m_data e') = Some argc /\
+     read_num digit_of 10 argc 0%N = Some c /\ m_args e' = Some args /\
+     (N.to_nat c <= List.length d -> List.length args = N.to_nat c /\
+        forall j, j < N.to_nat c -> fget (L "a" ++ Dec.dec (N.of_nat j)) d = Some (nth j args []))).
+Proof.
+  intros e'. subst e'. unfold add_execve. destruct (fget (L "argc") d) as [argc|]; [|cbn; split; lia].
+  destruct argc as [|c0 cr]; [cbn; split; lia|]. set (argc := c0 :: cr).
+  destruct (read_num digit_of 10 argc 0%N) as [c|] eqn:Er; [|cbn; split; lia].
+  destruct (N.ltb c (2 ^ 32)); [|cbn; split; lia].
+  destruct (take_args (S (List.length d)) 0 c d []) as [args|] eqn:Et; [|cbn; split; lia].
+  cbn [m_warn with_data m_data m_args]. split; [lia|]. intros _. exists argc, c, args.
+  split; [reflexivity|]. split; [apply fget_put_same|]. split; [exact Er|]. split; [reflexivity|].
+  intros Hlen. destruct (take_args_spec _ _ _ _ _ _ Et) as (vs & Hl & Hvl & Hget). { rewrite N.sub_0_r. lia. }
+  cbn [rev app] in Hl. subst vs. rewrite N.sub_0_r in Hvl. split; [exact Hvl|]. intros j Hj. rewrite <- (N.add_0_l (N.of_nat j)). apply Hget. lia.
+Qed.
+
+(* --- addSockaddrRecord: every field is in Data under socket_<key>, or (no syscall name) a warning is counted --- *)
+Lemma fold_put_prefix_in : forall (d : kvs) (m : kvs) k v, NoDup (map fst d) -> In (k, v) d ->
+  fget (L "socket_" ++ k) (fold_left (fun a kv => put (L "socket_" ++ fst kv) (snd kv) a) d m) = Some v.
+Proof.
+  induction d as [|[k' v'] d IH]; intros m k v Hn Hin; [contradiction|]. cbn [fold_left fst snd]. inversion Hn as [|? ? Hnot Hn']; subst.
+  destruct Hin as [E|Hin].
+  - injection E as -> ->. clear IH. revert m. cbn [map fst] in Hnot.
+    assert (G: forall (d : kvs) m, ~ In k (map fst d) -> fget (L "socket_" ++ k) m = Some v ->
+               fget (L "socket_" ++ k) (fold_left (fun a kv => put (L "socket_" ++ fst kv) (snd kv) a) d m) = Some v).
+    { clear. induction d as [|[k2 v2] d IHd]; intros m Hnot H; cbn [fold_left fst snd]; auto. apply IHd.
+      - intros C. apply Hnot. right. exact C.
+      - rewrite fget_put_other; auto. destruct (beq (L "socket_" ++ k2) (L "socket_" ++ k)) eqn:E; auto.
+        apply beq_eq in E. apply app_inv_head in E. subst k2. exfalso. apply Hnot. left. reflexivity. }
+    intros m. apply G; auto. apply fget_put_same.
+  - apply IH; auto.
+Qed.
+Theorem add_sockaddr_kept d e :
+  let e' := add_sockaddr d e in
+  m_warn e <= m_warn e' /\
+  (m_warn e' = m_warn e -> NoDup (map fst d) -> forall k v, In (k, v) d -> fget (L "socket_" ++ k) (m_data e') = Some v).
+Proof.
+  intros e'. subst e'. unfold add_sockaddr. destruct (fget (L "syscall") (m_data e)) as [sc|]; [|cbn; split; [lia|intros C; lia]].
+  split.
+  - destruct (_ || _); [cbn; lia|]. destruct (_ || _); cbn; lia.
+  - intros _ Hn k v Hin. pose proof (fold_put_prefix_in d (m_data e) k v Hn Hin) as G.
+    destruct (_ || _); [exact G|]. destruct (_ || _); exact G.
+Qed.
+Print Assumptions add_execve_kept.
+Print Assumptions add_sockaddr_kept.
